@@ -495,8 +495,15 @@ def scaled (amp off v : Rat) : Rat := (v - off + amp) * 16383 / (2 * amp)
 /-- interval `[lo, hi]` of acceptable codes for one expected sample (`lo > hi`: nothing is acceptable) -/
 abbrev Accept := Nat × Nat
 
+/-- relative width of the band above the range end in which the float range check of the implementation
+(`abs(v - off) > amp` after one rounding) may go either way -/
+def bandEps : Rat := 1 / ((2 ^ 40 : Nat) : Rat)
+
+def inBand (amp off v : Rat) : Bool :=
+  decide (amp < absR (v - off)) && decide (absR (v - off) ≤ amp * (1 + bandEps))
+
 def acceptVolt (amp off v : Rat) : Accept :=
-  if amp < absR (v - off) ∨ amp = 0 then (1, 0)          -- out of range: the implementation has to reject
+  if amp * (1 + bandEps) < absR (v - off) ∨ amp = 0 then (1, 0)   -- out of range: the implementation has to reject
   else
     let y := scaled amp off v
     let r := (rne y).toNat
@@ -512,15 +519,28 @@ structure SrcWf where
   b : Array Accept
   mA : Array Bool
   mB : Array Bool
+  band : Bool            -- some voltage lies within `bandEps` above the range end
   deriving Inhabited
 
-def srcChan (amp off : Rat) (n : Nat) : Option (List Rat) → Array Accept
-  | none => Array.replicate n (8192, 8192)         -- channel id `None`: the zero code
-  | some vs => (vs.map (acceptVolt amp off)).toArray
+def chanBand (amp off : Rat) : Option (List (Rat × Nat)) → Bool
+  | none => false
+  | some vs => vs.any (fun r => inBand amp off r.1)
 
+def srcChan (amp off : Rat) (n : Nat) : Option (List (Rat × Nat)) → Array Accept
+  | none => Array.replicate n (8192, 8192)         -- channel id `None`: the zero code
+  | some runs => runs.foldl (fun acc r => acc ++ Array.replicate r.2 (acceptVolt amp off r.1)) #[]
+
+/-- marker samples of a source waveform at the *full* rate; the judge keeps every second sample of the
+whole program (the half-rate grid is global, not per waveform) -/
 def srcMarker (n : Nat) : Option (List Bool) → Array Bool
-  | none => Array.replicate (n / 2) false
+  | none => Array.replicate n false
   | some ms => ms.toArray
+
+def decimate (xs : Array Bool) : Array Bool := Id.run do
+  let mut out : Array Bool := Array.mkEmpty ((xs.size + 1) / 2)
+  for i in [0:xs.size:2] do
+    out := out.push xs[i]!
+  return out
 
 /-- first position where the device stream leaves the acceptable codes -/
 def firstBadCode (exp : Array Accept) (dev : Array Nat) : Option Nat := Id.run do
@@ -617,18 +637,38 @@ def modelCompile (m : Option Mode) (L : Limits) (src : Loop) (st : Staged) : Sex
       | .ok p' => tablesS .advanced (parse p') (playProg p == src.play)
     | _ => Sexp.err "staged-program-missing"
 
-/-- dyadic sample list `(d E m1 m2 …)`: values `m · 2^E` -/
-def dyadic? : Sexp → Option (List Rat)
-  | .list (.atom "d" :: e :: ms) => do
-    let e ← int? e
-    let ms ← ms.mapM int?
-    let scale : Rat := if e ≥ 0 then ((2 : Rat) ^ e.toNat) else 1 / ((2 : Rat) ^ (-e).toNat)
-    pure (ms.map (fun (m : Int) => (m : Rat) * scale))
+/-- run-length atoms: `m` or `m*k` (k copies of m) -/
+def runAtom? : Sexp → Option (Int × Nat)
+  | .atom s =>
+    match s.splitOn "*" with
+    | [m] => do pure (← m.toInt?, 1)
+    | [m, k] => do pure (← m.toInt?, ← k.toNat?)
+    | _ => none
   | _ => none
 
-def optDyadic? : Sexp → Option (Option (List Rat))
+/-- dyadic sample list `(d E m1 m2*k …)`: values `m · 2^E`, as runs -/
+def dyadicRuns? : Sexp → Option (List (Rat × Nat))
+  | .list (.atom "d" :: e :: ms) => do
+    let e ← int? e
+    let ms ← ms.mapM runAtom?
+    let scale : Rat := if e ≥ 0 then ((2 : Rat) ^ e.toNat) else 1 / ((2 : Rat) ^ (-e).toNat)
+    pure (ms.map (fun (m : Int × Nat) => ((m.1 : Rat) * scale, m.2)))
+  | _ => none
+
+def expandRuns {α} (rs : List (α × Nat)) : List α := rs.flatMap (fun r => List.replicate r.2 r.1)
+
+def dyadic? (s : Sexp) : Option (List Rat) := (dyadicRuns? s).map expandRuns
+
+def optDyadicRuns? : Sexp → Option (Option (List (Rat × Nat)))
   | .atom "none" => some none
-  | s => (dyadic? s).map some
+  | s => (dyadicRuns? s).map some
+
+/-- raw words `(w1 w2*k …)` -/
+def natRuns? : Sexp → Option (List Nat)
+  | .list xs => do
+    let rs ← xs.mapM runAtom?
+    pure (expandRuns (rs.map (fun r => (r.1.toNat, r.2))))
+  | _ => none
 
 /-- marker samples travel as one atom `b0110…` -/
 def bits? : Sexp → Option (List Bool)
@@ -658,8 +698,10 @@ def cfg? : Sexp → Option Cfg
 def srcWf? (c : Cfg) : Sexp → Option SrcWf
   | .list [.atom "wf", i, n, a, b, ma, mb] => do
     let n ← nat? n
-    pure ⟨← nat? i, n, srcChan c.amp0 c.off0 n (← optDyadic? a), srcChan c.amp1 c.off1 n (← optDyadic? b),
-      srcMarker n (← optBits? ma), srcMarker n (← optBits? mb)⟩
+    let a ← optDyadicRuns? a
+    let b ← optDyadicRuns? b
+    pure ⟨← nat? i, n, srcChan c.amp0 c.off0 n a, srcChan c.amp1 c.off1 n b,
+      srcMarker n (← optBits? ma), srcMarker n (← optBits? mb), chanBand c.amp0 c.off0 a || chanBand c.amp1 c.off1 b⟩
   | _ => none
 
 def viol (clause : String) (args : List Sexp) : Sexp := .list (.atom "violates" :: .atom clause :: args)
@@ -719,10 +761,10 @@ def judge (m : Mode) (L : Limits) (src : Loop) (wfs : List SrcWf) (raws : List (
     match firstBadCode expB devB with
     | some i => return viol "channel-b" [ofNat i, ofNat (devB[i]?.getD 0), ofNat (expB[i]?.getD (0,0)).1, ofNat (expB[i]?.getD (0,0)).2]
     | none => pure ()
-    match firstBadBool (concatMap srcWfs (·.mA)) (concatMap devSegs (·.mA.toArray)) with
+    match firstBadBool (decimate (concatMap srcWfs (·.mA))) (concatMap devSegs (·.mA.toArray)) with
     | some i => return viol "marker-a" [ofNat i]
     | none => pure ()
-    match firstBadBool (concatMap srcWfs (·.mB)) (concatMap devSegs (·.mB.toArray)) with
+    match firstBadBool (decimate (concatMap srcWfs (·.mB))) (concatMap devSegs (·.mB.toArray)) with
     | some i => return viol "marker-b" [ofNat i]
     | none => pure ()
     return .list [.atom "ok", ofNat devA.size, ofNat devPlay.length]
@@ -738,7 +780,7 @@ def handle : List Sexp → Sexp
       .list (.atom "seqtabs" :: tabs), .list (.atom "adv" :: adv)] =>
     match mode? m, limits? l, loop? src, cfg? c with
     | some (some m), some L, some src, some c =>
-      match wfs.mapM (srcWf? c), segs.mapM (listOf? nat?), tabs.mapM (listOf? tentry3?), adv.mapM tentry3? with
+      match wfs.mapM (srcWf? c), segs.mapM natRuns?, tabs.mapM (listOf? tentry3?), adv.mapM tentry3? with
       | some wfs, some segs, some tabs, some adv => judge m L src wfs segs tabs adv
       | _, _, _, _ => Sexp.err "bad-args"
     | _, _, _, _ => Sexp.err "bad-args"
@@ -746,7 +788,11 @@ def handle : List Sexp → Sexp
     match cfg? c with
     | some c =>
       match wfs.mapM (srcWf? c) with
-      | some wfs => .list [.atom "ok", ofBool (wfs.all (fun w => w.a.all (fun x => x.1 ≤ x.2) && w.b.all (fun x => x.1 ≤ x.2)))]
+      | some wfs =>
+        if !(wfs.all (fun w => w.a.all (fun x => x.1 ≤ x.2) && w.b.all (fun x => x.1 ≤ x.2))) then
+          .list [.atom "ok", .atom "false"]
+        else if wfs.any (·.band) then .list [.atom "ok", .atom "boundary"]
+        else .list [.atom "ok", .atom "true"]
       | none => Sexp.err "bad-args"
     | none => Sexp.err "bad-args"
   | [.atom "play", src] =>
@@ -760,8 +806,8 @@ def handle : List Sexp → Sexp
       | .ok raw => .list (.atom "ok" :: raw.map ofNat)
       | .error e => errS e
     | _, _, _, _ => Sexp.err "bad-args"
-  | [.atom "unpack", .list raw] =>
-    match natList? raw with
+  | [.atom "unpack", raw] =>
+    match natRuns? raw with
     | some raw =>
       match unpack raw with
       | some s => .list [.atom "ok", .list (s.a.map ofNat), .list (s.b.map ofNat), bitsS s.mA, bitsS s.mB]
@@ -773,7 +819,7 @@ def handle : List Sexp → Sexp
       match codes amp off vs with
       | .ok cs => .list [.atom "ok", .list (cs.map ofNat),
           .list (vs.map (fun v => let a := acceptVolt amp off v; ofBool (a.1 != a.2)))]
-      | .error e => errS e
+      | .error e => .list [.atom "error", .atom e.name, ofBool (vs.all (fun v => (acceptVolt amp off v).1 ≤ (acceptVolt amp off v).2))]
     | _, _, _ => Sexp.err "bad-args"
   | _ => Sexp.err "c16-unknown-request"
 
